@@ -204,6 +204,8 @@ class Interp:
             # a ghost assignment of this function is part of its frame (target evaluated in the pre-state; objects allocated by
             # the call are always writable)
             lhs = g.split(":=")[0].strip()
+            if lhs.startswith("fresh "):
+                continue            # target is an object allocated by the call itself (named by a local): needs no frame entry
             m = "ghost " + lhs
             if m not in mod:
                 mod.append(m)
@@ -240,11 +242,14 @@ class Interp:
             if m.startswith("ghost "):
                 nm, arg = m[6:].strip().split("(", 1)
                 arg = arg.rsplit(")", 1)[0]
-                v = self.spec_val(arg, st, frame, binds=binds)
                 key = "g:" + nm.strip()
                 gty = self.u.T(self.reg.ghost_fields[nm.strip()])
                 self.u._key_ty.setdefault(key, gty)
                 self.u.get_arr(st, key, gty)
+                if arg.strip() == "*":
+                    out[key] = "*"
+                    continue
+                v = self.spec_val(arg, st, frame, binds=binds)
                 if out.get(key) != "*":
                     out.setdefault(key, []).append((guard, v.t))
                 continue
@@ -293,6 +298,20 @@ class Interp:
                     key = "f:%s.%s" % (K, f)
                     self.u.get_arr(st, key, self.u.T(fty))
                     out[key] = "*"
+                continue
+            if m.startswith("dict(") and m.endswith(")"):
+                v = self.spec_val(m[5:-1], st, frame, binds=binds)
+                if v.ty.k != "dict":
+                    raise Unsupported("modifies dict(%s): not a dict" % m)
+                kl = Ty("list", (v.ty.a[0],))
+                e = self.ct.erase(kl)
+                self.u.get_arr(st, "len:" + e, v.ty.a[0])
+                dk = "dv:" + self.ct.erase(v.ty)
+                self.u._key_ty[dk] = v.ty.a[1]
+                self.u.get_arr(st, dk, v.ty.a[1])
+                for k in ("len:" + e, "elt:" + e, dk):
+                    if out.get(k) != "*":
+                        out.setdefault(k, []).append((guard, v.t))
                 continue
             if m.startswith("list(") and m.endswith(")"):
                 v = self.spec_val(m[5:-1], st, frame, binds=binds)
@@ -505,10 +524,15 @@ class Interp:
         return cache[key].get(id(s), [])
 
     def apply_cuts(self, s, st, frame):
-        cuts = getattr(self.reg, "cuts", None)
-        if not cuts or self.u.dry:
+        cuts = getattr(self.reg, "cuts", None) or {}
+        lemmas = getattr(self.reg, "lemmas", None) or {}
+        if (not cuts and not lemmas) or self.u.dry:
             return
         for tag in self.stmt_tags(frame, s):
+            for cls_, why in lemmas.get((frame.qname, tag), []):
+                for cl in cls_:
+                    self.u.assumed.add("assumed lemma in %s after %s: %s  [%s]" % (frame.qname, tag, cl.text, why))
+                    st.pc.append(self.spec(cl.text, st, frame, old=self.u.entry, assume=True))
             cls = cuts.get((frame.qname, tag), [])
             if not cls:
                 continue
@@ -880,7 +904,8 @@ class Interp:
         else:
             lst = ev.ev(it)
             if lst.ty.k == "dict":
-                raise Unsupported("iteration over a dict: use .keys()")
+                from .calls import dict_keys
+                lst = dict_keys(ev, lst)
             if lst.ty.k == "tuple" and lst.ty.a and lst.ty.a[0] == "dictkeys":
                 raise Unsupported("dict keys")
             if lst.ty.k != "list":
@@ -955,7 +980,25 @@ class Interp:
         body_st.pc.append(k < cnt)
         body_st = bind_target(body_st, k)
         body_st.locals["_k%d" % n] = Val(k, INT)       # visible to the invariants of nested loops
+        n_obl0 = len(u.obls)
         outs = self.run_framed(lm, entry, n, lambda: self.exec_block(s.body, body_st, frame))
+        # A write on a path that leaves the loop (break / return / raise) never reaches the loop head again, so it need not
+        # lie inside the loop's own write frame (the state that leaves carries the write itself).  Loop-frame obligations
+        # are kept only if some outcome that continues the loop extends the path they were emitted on.
+        cont = [s2 for kind, s2, v in outs if kind in ("next", "continue")]
+
+        def reaches_head(ob):
+            for s2 in cont:
+                if len(ob.hyps) <= len(s2.pc) and all(a is b or a.eq(b) for a, b in zip(ob.hyps, s2.pc)):
+                    return True
+            return False
+        tag = "loop%d:" % n
+        kept = u.obls[:n_obl0]
+        for ob in u.obls[n_obl0:]:
+            if ob.kind == "frame" and ob.label.startswith(tag) and not reaches_head(ob):
+                continue
+            kept.append(ob)
+        u.obls[:] = kept
         res = [("next", exit_st, None)]
         for kind, s2, v in outs:
             if kind in ("next", "continue"):
@@ -970,8 +1013,7 @@ class Interp:
                 for nm in _target_names(s.target):
                     s3.locals.pop(nm, None)
                 for cl in L.invariants:
-                    self.oblige_split(s3, self.spec(cl.text, s3, frame, old=u.entry, entry=entry, binds=b1, assume=False), "inv-pres",
-                                      "loop%d.%s" % (n, cl.label), cl.props)
+                    self.oblige_clause(s3, cl, "inv-pres", "loop%d.%s" % (n, cl.label), frame, old=u.entry, entry=entry, binds=b1)
             elif kind == "break":
                 res.append(("next", s2, None))
             else:
@@ -1076,6 +1118,10 @@ class Interp:
         """ghost assignments `gfield(target) := value` of a sidecar contract; ghost state never influences real state"""
         for g in c.ghost_after:
             lhs, rhs = g.split(":=")
+            lhs = lhs.strip()
+            is_fresh = lhs.startswith("fresh ")
+            if is_fresh:
+                lhs = lhs[6:]
             name, arg = lhs.strip().split("(", 1)
             arg = arg.rsplit(")", 1)[0]
             tv = self.spec_val(arg, st, frame, old=self.u.entry)
@@ -1085,6 +1131,8 @@ class Interp:
             self.u._key_ty.setdefault(key, gty)
             A = self.u.get_arr(st, key, gty)
             vv = self.coerce(vv, gty, st, None, frame, spec=True)
+            if is_fresh and not self.u.dry:
+                self.u.oblige(st, tv.t >= self.u.next0, "frame", "ghost-fresh:" + name.strip(), self.u.contract.props | {"C14"})
             self.u.put_arr(st, key, z3.Store(A, tv.t, vv.t))
 
     def merge(self, n0, outs):
@@ -1214,7 +1262,7 @@ class Interp:
                         except Unsupported:
                             b2[wv] = Val(fresh("wit_" + wv, sort_of(wt)), wt)
                 st.pc.append(self.spec(e.text, st, fr2, old=pre, binds=b2))
-            if fresh_self:
+            if fresh_self or (getattr(u.contract, "closed_after_calls", False) and not c.pure):
                 # the objects this constructor allocated occupy [pre.next, st.next): their slots were not havoced (see above),
                 # so the closed-heap / typed-heap facts of the arrays have to be restated for the new allocation bound
                 for key in sorted(set(st.heap) | set(u.base)):
